@@ -26,6 +26,8 @@ type PktSpec struct {
 	Body    []byte `json:"body,omitempty"`
 	Mal     string `json:"mal,omitempty"` // "" | trunc | over | extra
 	MalN    int    `json:"mal_n,omitempty"`
+	Alias   *PktSpec `json:"same_bytes_as,omitempty"` // unk: the bytes of this packet, with the high byte of the 16-bit type set to Hi (an unknown type whose low byte names a known one)
+	Hi      byte     `json:"type_high_byte,omitempty"`
 }
 
 func (p PktSpec) String() string {
@@ -41,6 +43,9 @@ func (p PktSpec) String() string {
 		s += fmt.Sprintf("(%d)", len(p.Payload))
 	case "unk":
 		s += fmt.Sprintf("(%#x)", p.Type)
+		if p.Alias != nil {
+			s = fmt.Sprintf("unk(%#x|%s)", int(p.Hi)<<8, p.Alias.String())
+		}
 	}
 	if p.Mal != "" {
 		s += fmt.Sprintf("!%s%d", p.Mal, p.MalN)
@@ -162,6 +167,11 @@ func render(cfg histCfg, specs []PktSpec, clientIP string) (units [][]byte, evs 
 			b = tsgu.CloseChannel()
 		case "unk":
 			b = tsgu.Packet(p.Type, p.Body)
+			if p.Alias != nil && p.Hi != 0 {
+				au, _ := render(cfg, []PktSpec{*p.Alias}, clientIP)
+				b = append([]byte(nil), au[0]...)
+				b[1] = p.Hi
+			}
 			e.Kind = "unknown"
 		}
 		units = append(units, b)
@@ -264,6 +274,12 @@ func genHistory(t *rapid.T, o gwOpts) []PktSpec {
 				k = rapid.SampledFrom([]string{"data", "data", "ka", "close"}).Draw(t, "openOp")
 			}
 			p = mk(k)
+			if rapid.IntRange(0, 11).Draw(t, "aliased") == 0 {
+				// what would be the right next step, under a type that only shares its low byte with it
+				ap := p
+				ap.Mal, ap.MalN = "", 0
+				p = PktSpec{K: "unk", Alias: &ap, Hi: rapid.SampledFrom([]byte{1, 2, 0x80, 0xff}).Draw(t, "typeHi")}
+			}
 		} else {
 			p = mk(rapid.SampledFrom(all).Draw(t, "any"))
 		}
